@@ -818,7 +818,8 @@ fn main() {
             jobs.push(Job::Heap(k, w, d));
         }
     }
-    for w in [1usize, 2, 3] {
+    // 49, 103: ceil(1/(1/w)) != w in f64 (a clear() that re-derives the width from epsilon shows only there)
+    for w in [1usize, 2, 3, 49, 103] {
         jobs.push(Job::Lc(Some(w), 0.0));
     }
     jobs.push(Job::Lc(None, 0.34));
